@@ -6,14 +6,17 @@ cd "$(dirname "$0")/.." || exit 2
 scratch=$(mktemp -d /dev/shm/verif-regress-XXXXXX) || exit 2
 trap 'rm -rf "$scratch"' EXIT INT TERM
 for d in seeded/*/; do
-  id=$(basename $d); prop=${id%%-*}
-  # C11-w2-m2 is caught by C12 (see DESIGN.md)
-  [ "$id" = "C11-w2-m2" ] && prop=C12
+  id=$(basename $d); prop=${id%%-*}; expect=caught
+  # meta.json names the check that catches the change (its own property's, a neighbour's, or none)
+  cb=$(jq -r '.caught_by // empty' "$d/meta.json" 2>/dev/null)
+  case "$cb" in C[0-9][0-9]) prop=$cb ;; none*) expect=none ;; esac
   rm -rf "$scratch/repo"; mkdir -p "$scratch/repo"
   git -C /repo archive HEAD | tar -x -C "$scratch/repo"
   if ! (cd "$scratch/repo" && patch -p1 -s < "$OLDPWD/$d/patch.diff" >/dev/null 2>&1); then echo "$id PATCH-DOES-NOT-APPLY"; continue; fi
   res=$(VERIF_REPO="$scratch/repo" ./check $prop --budget-s $budget --workers $workers 2>&1 | grep '^violation class=\|^INCONCLUSIVE' | sed 's/violation class=//' | cut -c1-40 | sort | uniq -c | sort -rn | head -2 | tr '\n' ';')
   [ -z "$res" ] && res="MISSED"
-  echo "$id $prop $res"
+  verdict=ok
+  case "$expect:$res" in caught:MISSED) verdict=REGRESSION ;; none:MISSED) verdict=ok-documented-miss ;; none:*) verdict=now-caught ;; esac
+  echo "$id $prop $res $verdict"
 done
 git checkout -- evidence 2>/dev/null
